@@ -53,6 +53,9 @@ Proof.
 Qed.
 
 (* ------------------------------------------------------------------ digit characters (finite facts) *)
+Definition opt_N_eqb (a b : option N) : bool :=
+  match a, b with Some x, Some y => x =? y | None, None => true | _, _ => false end.
+
 Definition char_facts (up : bool) (v : N) : bool :=
   let c := digit_char up v in
   opt_N_eqb (digit_val c) (Some v)
@@ -61,9 +64,7 @@ Definition char_facts (up : bool) (v : N) : bool :=
   && negb (is_space c) && negb (c =? 59) && negb (c =? 45) && negb (c =? 94)
   && (if v <? 10 then is_digit c && in_class "dec" c && negb (ascii_lower c =? 98) else negb (is_digit c))
   && (if v <? 8 then in_class "oct" c && negb (c =? 56) && negb (c =? 57) else true)
-  && (if v <? 2 then in_class "bin" c else true)
-with opt_N_eqb (a b : option N) : bool :=
-  match a, b with Some x, Some y => x =? y | None, None => true | _, _ => false end.
+  && (if v <? 2 then in_class "bin" c else true).
 
 Lemma char_facts_all : forallb (fun v => char_facts true v && char_facts false v) (nrange 16) = true.
 Proof. vm_compute. reflexivity. Qed.
@@ -73,6 +74,9 @@ Proof.
   intros H. pose proof (nrange_forallb 16 _ char_facts_all v H) as P. cbv beta in P.
   apply andb_true_iff in P. destruct up; tauto.
 Qed.
+
+Ltac split_facts F :=
+  repeat (let G := fresh "G" in apply andb_true_iff in F; destruct F as [F G]).
 
 (* what a list of digit characters must satisfy for the lexer lemmas *)
 Record good_chars (kind : string) (base : N) (n : N) (cs : str) : Prop := {
@@ -90,16 +94,37 @@ Lemma int_digits_chars base mask : base <= 16 -> forall vs i acc, Forall (fun v 
 Proof.
   intros Hb. induction vs as [|v r IH]; intros i acc Hv; [reflexivity|].
   inversion Hv as [|? ? Hv1 Hv2]; subst. cbn [chars_of int_digits fold_left].
-  pose proof (char_facts_ok (mask i) v ltac:(lia)) as F. unfold char_facts in F.
-  repeat (apply andb_true_iff in F; destruct F as [F ?]).
+  assert (Hv16 : v < 16) by lia.
+  pose proof (char_facts_ok (mask i) v Hv16) as F. unfold char_facts in F. cbv zeta in F.
+  split_facts F.
   destruct (digit_val (digit_char (mask i) v)) as [x|]; [|discriminate]. simpl in F. apply N.eqb_eq in F. subst x.
   replace (v <? base) with true by (symmetry; apply N.ltb_lt; exact Hv1). apply IH. exact Hv2.
 Qed.
 
-Ltac facts up v H :=
-  let F := fresh "F" in
-  pose proof (char_facts_ok up v H) as F; unfold char_facts in F;
-  repeat (apply andb_true_iff in F; let G := fresh "G" in destruct F as [F G]).
+Section CharFacts.
+Variables (up : bool) (v : N).
+Hypothesis Hv : v < 16.
+
+Lemma cf_all :
+  let c := digit_char up v in
+  is_tokch c = true /\ in_class "hex" c = true /\ (c =? 36) = false /\ (c =? 95) = false /\ (c =? 46) = false
+  /\ (ascii_lower c =? 120) = false /\ (ascii_lower c =? 111) = false
+  /\ is_space c = false /\ (c =? 59) = false /\ (c =? 45) = false /\ (c =? 94) = false
+  /\ (v < 10 -> is_digit c = true /\ in_class "dec" c = true)
+  /\ (v < 8 -> in_class "oct" c = true)
+  /\ (v < 2 -> in_class "bin" c = true).
+Proof.
+  pose proof (char_facts_ok up v Hv) as F. unfold char_facts in F. cbv zeta in F. cbv zeta.
+  split_facts F.
+  repeat match goal with X : negb _ = true |- _ => apply negb_true_iff in X end.
+  repeat split; try assumption.
+  all: intros; clear Hv.
+  all: match goal with Hlt : v < ?k |- _ =>
+         replace (v <? k) with true in * by (symmetry; apply N.ltb_lt; exact Hlt)
+       end;
+       repeat match goal with X : _ && _ = true |- _ => apply andb_true_iff in X; destruct X end; assumption.
+Qed.
+End CharFacts.
 
 Lemma forallb_chars (p : N -> bool) mask bound :
   (forall up v, v < bound -> p (digit_char up v) = true) ->
@@ -132,24 +157,20 @@ Proof.
   assert (B16 : Forall (fun v => v < 16) (digits base n)) by (eapply Forall_impl; [|exact B]; simpl; intros; lia).
   constructor.
   - apply chars_nonempty. apply digits_nonempty.
-  - apply (forallb_chars is_tokch mask 16); [|exact B16]. intros up v H. facts up v H. assumption.
+  - apply (forallb_chars is_tokch mask 16); [|exact B16]. intros up v H. apply (cf_all up v H).
   - apply (forallb_chars (in_class kind) mask base); [|exact B]. intros up v H.
     destruct K as [[-> ->]|[[-> ->]|[[-> ->]|[-> ->]]]].
-    + facts up v H. assumption.
-    + facts up v ltac:(lia). replace (v <? 8) with true in * by (symmetry; apply N.ltb_lt; lia).
-      repeat match goal with X : _ && _ = true |- _ => apply andb_true_iff in X; destruct X end. assumption.
-    + facts up v ltac:(lia). replace (v <? 2) with true in * by (symmetry; apply N.ltb_lt; lia). assumption.
-    + facts up v ltac:(lia). replace (v <? 10) with true in * by (symmetry; apply N.ltb_lt; lia).
-      repeat match goal with X : _ && _ = true |- _ => apply andb_true_iff in X; destruct X end. assumption.
-  - repeat split; apply (mem_ch_chars _ mask 16); try exact B16; intros up v H; facts up v H;
-      match goal with X : negb (_ =? ?k) = true |- (_ =? ?k) = false => apply negb_true_iff in X; exact X end.
+    + apply (cf_all up v H).
+    + assert (H16 : v < 16) by lia. apply (cf_all up v H16). exact H.
+    + assert (H16 : v < 16) by lia. apply (cf_all up v H16). exact H.
+    + assert (H16 : v < 16) by lia. apply (cf_all up v H16). exact H.
+  - repeat split; apply (mem_ch_chars _ mask 16); try exact B16; intros up v H; apply (cf_all up v H).
   - rewrite (int_digits_chars base mask Hb16 _ 0%nat 0 B). f_equal. apply digits_value. exact Hb2.
-  - apply (forallb_chars _ mask 16); [|exact B16]. intros up v H. facts up v H.
-    apply andb_true_iff. split; assumption.
+  - apply (forallb_chars _ mask 16); [|exact B16]. intros up v H.
+    destruct (cf_all up v H) as [_ [_ [_ [_ [_ [X [O _]]]]]]]. rewrite X, O. reflexivity.
   - pose proof (digits_nonempty base n) as NE. destruct (digits base n) as [|v r] eqn:E; [contradiction|].
     inversion B16; subst. exists (digit_char (mask 0%nat) v), (chars_of mask 1 r). split; [reflexivity|].
-    facts (mask 0%nat) v ltac:(assumption).
-    repeat match goal with X : negb _ = true |- _ => apply negb_true_iff in X end.
+    destruct (cf_all (mask 0%nat) v ltac:(assumption)) as [_ [_ [_ [_ [_ [_ [_ [S [C1 [C2 [C3 _]]]]]]]]]]].
     repeat split; try assumption; apply N.eqb_neq; assumption.
 Qed.
 
@@ -170,21 +191,18 @@ Lemma py_int_plain base cs n :
   py_int base cs = Some n.
 Proof.
   intros NE Hi Hx Hbin. unfold py_int.
-  assert (S : match cs with
-              | 48 :: l :: r => if ((base =? 16) && (ascii_lower l =? 120)) || ((base =? 8) && (ascii_lower l =? 111)) || ((base =? 2) && (ascii_lower l =? 98)) then r else cs
-              | _ => cs end = cs).
-  { destruct cs as [|c [|l r]]; try reflexivity.
-    destruct (c =? 48) eqn:E48; [apply N.eqb_eq in E48; subst c|].
-    - simpl in Hx. apply andb_true_iff in Hx. destruct Hx as [_ Hx]. apply andb_true_iff in Hx. destruct Hx as [Hl _].
-      apply andb_true_iff in Hl. destruct Hl as [H1 H2]. apply negb_true_iff in H1, H2. rewrite H1, H2.
-      rewrite !andb_false_r. simpl.
-      destruct (base =? 2) eqn:E2; [|reflexivity]. apply N.eqb_eq in E2. specialize (Hbin E2).
-      simpl in Hbin. apply andb_true_iff in Hbin. destruct Hbin as [_ Hbin]. apply andb_true_iff in Hbin. destruct Hbin as [Hbl _].
-      unfold in_class in Hbl. simpl in Hbl.
-      replace (ascii_lower l =? 98) with false; [reflexivity|].
-      symmetry. apply N.eqb_neq. apply orb_true_iff in Hbl. destruct Hbl as [Hbl|Hbl]; apply N.eqb_eq in Hbl; subst l; vm_compute; discriminate.
-    - destruct c as [|p]; try reflexivity.
-      repeat (destruct p as [p|p|]; try reflexivity). all: try (rewrite N.eqb_refl in E48; discriminate). }
+  assert (S : strip_base_prefix base cs = cs).
+  { unfold strip_base_prefix. destruct cs as [|c [|l r]]; try reflexivity.
+    assert (Pl : forall p : N -> bool, forallb p (c :: l :: r) = true -> p l = true).
+    { intros p H. cbn [forallb] in H. apply andb_true_iff in H. destruct H as [_ H]. apply andb_true_iff in H. tauto. }
+    pose proof (Pl _ Hx) as Hl. cbv beta in Hl.
+    apply andb_true_iff in Hl. destruct Hl as [H1 H2]. apply negb_true_iff in H1, H2. rewrite H1, H2.
+    rewrite !andb_false_r. cbn [orb].
+    destruct (base =? 2) eqn:E2; [|rewrite andb_false_r; reflexivity]. apply N.eqb_eq in E2. specialize (Hbin E2).
+    pose proof (Pl _ Hbin) as Hbl.
+    unfold in_class in Hbl. cbn in Hbl.
+    replace (ascii_lower l =? 98) with false; [rewrite andb_false_r; reflexivity|].
+    symmetry. apply N.eqb_neq. apply orb_true_iff in Hbl. destruct Hbl as [Hbl|Hbl]; apply N.eqb_eq in Hbl; subst l; vm_compute; discriminate. }
   rewrite S. destruct cs; [contradiction | exact Hi].
 Qed.
 
